@@ -40,6 +40,11 @@ type Explorer struct {
 
 	Deadline time.Time
 	MaxExecs int
+	// JobBudget > 0: once this many executions have run, subtrees not yet entered are not explored by
+	// this call but appended to Deferred (as prefixes) for the caller to schedule as jobs of their own.
+	// Nothing is dropped: it bounds the size (and memory) of one job, not the search.
+	JobBudget int
+	Deferred  [][]int
 
 	Execs      int
 	Steps      int
@@ -179,6 +184,8 @@ func (e *Explorer) Explore(prefix []int, split bool) (children [][]int) {
 				child[i] = alt
 				if split {
 					children = append(children, child)
+				} else if e.JobBudget > 0 && e.Execs >= e.JobBudget {
+					e.Deferred = append(e.Deferred, child)
 				} else {
 					e.Explore(child, false)
 					if e.Stopped {
